@@ -203,6 +203,11 @@ class Pairs(list):
 class GoBig(int):
     pass
 
+class GoOdd:
+    def __init__(self, t): self.t = t
+    def __repr__(self): return "GoOdd(%s)" % self.t
+    __hash__ = object.__hash__
+
 class GP(PV.P):
     def value(self):
         t = self.t[self.i]
@@ -217,6 +222,9 @@ class GP(PV.P):
         if t.startswith("^"):
             self.i += 1
             return ("cycle", t)
+        if t in ("NIL", "MARK") or t.startswith("UNDOCUMENTED"):
+            self.i += 1
+            return GoOdd(t)          # a Go value no Python object corresponds to
         return super().value()
 
 def parse_go(dump):
